@@ -20,8 +20,33 @@ class RerunScenario(cmdscn.CmdScenario):
     def spec(self):
         return ('checks.c12', 'RerunScenario', self.kwargs())
 
+    INFLIGHT = 'execution-failed-while-the-rerun-request-was-in-flight'
+
+    def _note_inflight(self, pre, post):
+        """A workflow execution is failed (by a completion check or by the
+        re-evaluation of a join) while the start request of a rerun is
+        still in flight, i.e. while the task being rerun still looks
+        failed."""
+        pend = [m for m in env.W.msgs if m.method == 'start_task'
+                and m.kwargs.get('rerun') == 'true']
+        pend += [a for a in env.W.acts if not a.done and a.kind == 'msg'
+                 and '.start_task' in a.desc and '"rerun": "true"' in a.desc]
+        if not pend:
+            return
+        pre_w = {w['id']: w['state'] for w in pre['workflow_executions_v2']}
+        pre_t = {t['id']: t['state'] for t in pre['task_executions_v2']}
+        hit = any(pre_w.get(w['id']) == 'RUNNING' and w['state'] == 'ERROR'
+                  for w in post['workflow_executions_v2'])
+        hit = hit or any(pre_t.get(t['id']) == 'WAITING' and
+                         t['state'] == 'ERROR'
+                         for t in post['task_executions_v2'])
+        h = env.W.extra.setdefault('hist', [])
+        if hit and self.INFLIGHT not in h:
+            h.append(self.INFLIGHT)
+
     def check_step(self, pre, post, choice, ctx):
         v = []
+        self._note_inflight(pre, post)
         tag = getattr(choice, 'tag', None) or ''
         for where, cls, is_mistral, text in ctx.new_exceptions:
             if not is_mistral:
@@ -141,6 +166,10 @@ class SubRerunScenario(ItemsScenario):
     (several reruns in flight): the parent task must wait for every
     re-executed child and the run must end as if the children had
     succeeded the first time."""
+
+    # several tasks of the same name (one per child): a command is always
+    # identified by the task it targets
+    label_by_id = True
 
     def spec(self):
         return ('checks.c12', 'SubRerunScenario', self.kwargs())
